@@ -239,6 +239,9 @@ def engines(ctx, prop, cfgs_par, cfgs_ser, obs):
         engine_family(ctx, prop, 'EngineSerialMC', c, 'serial', obs)
 
 def check_C03(ctx):
+    # unbounded: Shape(Clip(res)) for any first/last TTL and any result table (TLAPS); EngineParallelMC binds the proof's copies of
+    # Clip/Shape to the engine spec (ClipCopyAgrees) and checks its hypothesis (ClipHyp) on every reachable state
+    vt.tlaps_proof(ctx, 'ClipProof', ['ClipDefs'])
     par = ['EngineParallelMC.cfg', 'EngineParallelMC_faults.cfg', 'EngineParallelMC_faults3.cfg', 'EngineParallelMC_hi.cfg', 'EngineParallelMC_wide.cfg']
     ser = ['EngineSerialMC.cfg', 'EngineSerialMC_faults.cfg', 'EngineSerialMC_faults3.cfg', 'EngineSerialMC_hi.cfg', 'EngineSerialMC_wide.cfg']
     if not ctx.quick():
